@@ -58,16 +58,19 @@ def build_job(comm, npts, nprocs):
     return ok
 
 
-def setup_job(comm, cfile, plot):
+def setup_job(comm, cfile, plot, fromfile=None, draw=0):
     """The grid as the set-up functions choose it: on the communicator the LAYOUTS live on (all ranks but the plot-only one)."""
-    from pygyro.initialisation.setups import setupCylindricalGrid
+    from pygyro.initialisation.setups import setupCylindricalGrid, setupFromFile
     with sl.warnings.catch_warnings():
         sl.warnings.simplefilter("ignore")
         try:
-            g, c, _ = setupCylindricalGrid(layout="v_parallel", constantFile=cfile, comm=comm, plotThread=plot, drawRank=0)
+            if fromfile:
+                g, c, _ = setupFromFile(fromfile, comm=comm, plotThread=plot, drawRank=draw, layout="v_parallel")
+            else:
+                g, c, _ = setupCylindricalGrid(layout="v_parallel", constantFile=cfile, comm=comm, plotThread=plot, drawRank=draw)
         except RuntimeError as ex:
             return ("raised", str(ex))
-        if plot and comm.Get_rank() == 0:
+        if plot and comm.Get_rank() == draw:
             return ("plot",)
         lay = g.getLayout("v_parallel")
         ok = lay.size > 0
@@ -142,7 +145,13 @@ def run(ctx):
             n = rng.choice([2, 3, 4, 5, 7])
             plot = bool(i % 3)
             cfile = scenarios.write_constants(os.path.join(work, "c%d.json" % i), npts=npts)
-            res = MPI.run(n, setup_job, policy="random", seed=i, args=(cfile, plot))
+            fromfile = None
+            if i % 2:                      # the restart set-up on a folder that holds the parameter file only (fresh start in the given layout)
+                fromfile = os.path.join(work, "f%d" % i)
+                os.makedirs(fromfile)
+                shutil.copy(cfile, os.path.join(fromfile, "initParams.json"))
+            draw = (n - 1) if (plot and i % 4 >= 2) else 0
+            res = MPI.run(n, setup_job, policy="random", seed=i, args=(cfile, plot, fromfile, draw))
             s = n - 1 if plot else n
             vals = [v for v in (res.values or []) if v and v[0] != "plot"] if res.ok else []
             raised = bool(vals) and all(v[0] == "raised" and "no valid combination" in v[1] for v in vals)
